@@ -231,6 +231,66 @@ def parseStoredList : List (List String) → Option (List Reply)
       pure (⟨c, some en, .text m⟩ :: l)
 
 
+/-! ### several recipients in one attempt; AUTH towards the downstream server (round 9) -/
+
+def splitTok (sep : String) (toks : List String) : List (List String) :=
+  let (cur, acc) := toks.foldl (fun (p : List String × List (List String)) t =>
+    if t == sep then ([], p.1.reverse :: p.2) else (t :: p.1, p.2)) ([], [])
+  (cur.reverse :: acc).reverse
+
+def showRObs (k : Nat) (o : RcptObs) : String :=
+  let p := s!"a{k}.r{o.rcpt}:"
+  match o.dec with
+  | .delivered => p ++ "delivered"
+  | .retry =>
+    let st := match o.state.stored with | some r => showStored r | none => "none"
+    p ++ s!"retry tries={o.state.tries} stored={st}"
+  | .giveUp =>
+    match o.report with
+    | some l => p ++ "giveup " ++ showLine l
+    | none => p ++ "giveup genfail"
+
+def showMulti (atts : List (List RcptObs)) : String :=
+  let rec go (k : Nat) : List (List RcptObs) → List String
+    | [] => []
+    | a :: r => a.map (showRObs k) ++ go (k + 1) r
+  " | ".intercalate (go 1 atts)
+
+def parseAuthCfg : String → Option AuthCfg
+  | "off" => some .off
+  | "plain" => some .plain
+  | "fwd" => some (.forward true)
+  | "fwd0" => some (.forward false)
+  | "ext" => some .external
+  | _ => none
+
+/-- `ok` (235), `A <reply>` any other reply, `drop` / `junk` / `chal`: the exchange breaks -/
+def parseAuthAns : List String → Option (AuthAns × List String)
+  | "ok" :: r => some (.ok, r)
+  | "drop" :: r => some (.broken, r)
+  | "junk" :: r => some (.broken, r)
+  | "chal" :: r => some (.broken, r)
+  | "A" :: c :: a :: s :: d :: m :: r => do
+      let (c, en, m) ← parseReply? [c, a, s, d, m]
+      pure (.reply c en m, r)
+  | _ => none
+
+/-- the line of a downstream op: `tx` = the transaction error for what happens after the connection -/
+def showDown (_eps : List (Option Err)) (aft : List String) (tx : After → Option Err) : String :=
+  match aft with
+  | "S" :: sts =>
+    match parseStatuses sts with
+    | some afters =>
+      -- no status at all when the transaction ended before the data
+      match tx .ok with
+      | none => " || ".intercalate (afters.map fun a => showOpt (tx a))
+      | some e => showGood e
+    | none => "bad-op"
+  | _ =>
+    match parseDownAfter aft with
+    | some after => showOpt (tx after)
+    | none => "bad-op"
+
 /-! ### failures of maddy's own limits, SASL authentication (round 7) -/
 
 /-- the harness prints the two constant texts by name wherever they come from -/
@@ -406,18 +466,22 @@ def handle : List String → String
     | none => "bad-op"
   | "down" :: _lmtp :: rest =>
     match parseEPs rest with
-    | some (eps, "S" :: sts) =>
-      match parseStatuses sts with
-      | some afters =>
-        match downLoop none eps with
-        | none => " || ".intercalate (afters.map fun a => showOpt (downTxErr eps a))
-        | _ => showOpt (downTxErr eps .ok)
-      | none => "bad-op"
-    | some (eps, aft) =>
-      match parseDownAfter aft with
-      | some after => showOpt (downTxErr eps after)
-      | none => "bad-op"
+    | some (eps, aft) => showDown eps aft (downTxErr eps)
     | none => "bad-op"
+  | "dauth" :: _lmtp :: cfg :: rest =>
+    match parseAuthCfg cfg, parseAuthAns rest with
+    | some cfg, some (ans, ";" :: r) =>
+      match parseEPs r with
+      | some (eps, aft) => showDown eps aft (downAuthTxErr eps cfg ans)
+      | none => "bad-op"
+    | _, _ => "bad-op"
+  | "qmulti" :: mt :: u :: _restarts :: rest =>
+    match mt.toNat?, (splitTok "/" rest).mapM (fun seg => (splitSemi seg).mapM parseAttempt) with
+    | some m, some plans =>
+      let fuel := plans.foldl (fun a p => max a p.length) 0 + 1
+      let pf := fun r => (plans[r - 1]?).getD []
+      showMulti (runMulti m (u == "1") pf fuel 0 (List.range' 1 plans.length) .init)
+    | _, _ => "bad-op"
   | "mxlookup" :: rest =>
     match parseErr rest with
     | some (e, []) => showGood (lookupMXErr e)
